@@ -441,8 +441,10 @@ func (blockID BlockID) Equals(other BlockID) bool {
 		blockID.PartsHeader.Equals(other.PartsHeader)
 }
 
+// Key is an in-memory map key. The hash is length-prefixed (binary encoding of the
+// byte slice) so that distinct block ids never share a key.
 func (blockID BlockID) Key() string {
-	return string(blockID.Hash) + string(wire.BinaryBytes(blockID.PartsHeader))
+	return string(wire.BinaryBytes(blockID.Hash)) + string(wire.BinaryBytes(blockID.PartsHeader))
 }
 
 func (blockID BlockID) WriteSignBytes(w io.Writer, n *int, err *error) {
